@@ -184,3 +184,79 @@ def show_key(k):
     if isinstance(k, tuple) and k and k[0] == 'term':
         return '%s(%s)' % (k[1], ', '.join(show_key(x) for x in k[2:]))
     return str(k)
+
+
+# ------------------------------------------------- equalities that follow from the comparisons of a path ---
+def _lin_of_key(k):
+    """(const, {leafkey: coef}) of a vkey() of an integer value, or None"""
+    if isinstance(k, bool):
+        return (int(k), {})
+    if isinstance(k, int):
+        return (k, {})
+    if isinstance(k, tuple) and k and k[0] == 'lin':
+        return (k[1], {lk: c for lk, c in k[2:]})
+    if isinstance(k, tuple) and k and k[0] in ('sym', 'term'):
+        return (0, {k: 1})
+    return None
+
+
+def _diff_interval(ctx, kx, ky):
+    """interval of (x - y) implied by the comparison facts of the path (difference constraints only)"""
+    INF = 1 << 70
+    lo, hi = -INF, INF
+    for k, truth in ctx.facts.items():
+        if not (isinstance(k, tuple) and len(k) == 4 and k[0] == 'term'):
+            continue
+        op = str(k[1]).split(':')[0]
+        if op not in ('<', '<=', '>', '>=', '==', '!='):
+            continue
+        L, R = _lin_of_key(k[2]), _lin_of_key(k[3])
+        if L is None or R is None:
+            continue
+        c0 = L[0] - R[0]
+        co = dict(L[1])
+        for lk, c in R[1].items():
+            co[lk] = co.get(lk, 0) - c
+        co = {lk: c for lk, c in co.items() if c}
+        if set(co) != {kx, ky} or co[kx] != -co[ky] or abs(co[kx]) != 1:
+            continue
+        if not truth:
+            op = {'<': '>=', '<=': '>', '>': '<=', '>=': '<', '==': '!=', '!=': '=='}[op]
+        # a*(x-y) + c0 op 0
+        if co[kx] == -1:
+            op = {'<': '>', '<=': '>=', '>': '<', '>=': '<=', '==': '==', '!=': '!='}[op]
+            c0 = -c0
+        # now (x-y) + c0 op 0  ->  (x-y) op -c0
+        b = -c0
+        if op == '<':
+            hi = min(hi, b - 1)
+        elif op == '<=':
+            hi = min(hi, b)
+        elif op == '>':
+            lo = max(lo, b + 1)
+        elif op == '>=':
+            lo = max(lo, b)
+        elif op == '==':
+            lo = max(lo, b); hi = min(hi, b)
+    return lo, hi
+
+
+def eq_on_path(ctx, a, b):
+    """a == b, syntactically as linear terms or as a consequence of the path's comparisons"""
+    if lin_eq(a, b):
+        return True
+    d = lin_diff(a, b)
+    d = Lin.of(d) if d is not None else None
+    if not isinstance(d, Lin):
+        return False
+    items = list(d.terms.items())
+    if len(items) == 1:
+        (k, (c, leaf)), = items
+        bd = ctx.bounds.get(k)
+        return bool(bd) and bd[0] == bd[1] and c * bd[0] + d.c == 0
+    if len(items) == 2:
+        (k1, (c1, _)), (k2, (c2, _)) = items
+        if c1 == -c2 and abs(c1) == 1:
+            lo, hi = _diff_interval(ctx, k1, k2)
+            return lo == hi and c1 * lo + d.c == 0
+    return False
